@@ -43,8 +43,10 @@ def gen_cfg(rng):
             cfg['init_lo'], cfg['init_hi'] = b['lo'], b['hi']
     if rng.random() < 0.4: cfg['cons'] = K.gen_constraint(rng, dim, cfg.get('box'))
     if rng.random() < 0.4: cfg['pen'] = K.gen_penalty(rng, dim)
-    cfg['stepmon_kind'] = rng.choice(['plain', 'plain', 'logging'])
-    cfg['evalmon_kind'] = rng.choice(['plain', 'plain', 'none'])
+    cfg['stepmon_kind'] = rng.choice(['plain', 'plain', 'logging', 'verbose', 'verbose_logging'])
+    cfg['evalmon_kind'] = rng.choice(['plain', 'plain', 'none', 'logging'])
+    # cost multiplier of the monitors (k = -1 is the documented way to log a maximisation): restored monitors must give back the same costs
+    cfg['stepmon_k'] = rng.choice([None, None, -1, 2.5]); cfg['evalmon_k'] = rng.choice([None, None, -1, 2.5])
     cfg['save'] = rng.choice(['SaveSolver', 'dill', 'frequency'])
     cfg['restore'] = 'LoadSolver' if cfg['save'] != 'dill' else 'dill'
     cfg['freq'] = rng.choice([1, 2, 3])
@@ -66,11 +68,19 @@ def build(cfg, tmp, probe):
         s.SetStrictRanges(list(cfg['box']['lo']), list(cfg['box']['hi']), **kw)
     if cfg.get('cons'): s.SetConstraints(K.make_constraint(cfg['cons']))
     if cfg.get('pen'): s.SetPenalty(K.make_penalty(cfg['pen']))
+    from mystic.monitors import VerboseMonitor, VerboseLoggingMonitor
+    kk = {} if cfg.get('stepmon_k') is None else {'k': cfg['stepmon_k']}
     if cfg['stepmon_kind'] == 'logging':
-        s.SetGenerationMonitor(LoggingMonitor(1, filename=os.path.join(tmp, 'step.log'), new=True))
+        s.SetGenerationMonitor(LoggingMonitor(1, filename=os.path.join(tmp, 'step.log'), new=True, **kk))
+    elif cfg['stepmon_kind'] == 'verbose_logging':
+        s.SetGenerationMonitor(VerboseLoggingMonitor(1, 50, filename=os.path.join(tmp, 'step.log'), new=True, **kk))
+    elif cfg['stepmon_kind'] == 'verbose':
+        s.SetGenerationMonitor(VerboseMonitor(50, **kk))
     else:
-        s.SetGenerationMonitor(Monitor())
-    if cfg['evalmon_kind'] == 'plain': s.SetEvaluationMonitor(Monitor())
+        s.SetGenerationMonitor(Monitor(**kk))
+    ke = {} if cfg.get('evalmon_k') is None else {'k': cfg['evalmon_k']}
+    if cfg['evalmon_kind'] == 'plain': s.SetEvaluationMonitor(Monitor(**ke))
+    elif cfg['evalmon_kind'] == 'logging': s.SetEvaluationMonitor(LoggingMonitor(1, filename=os.path.join(tmp, 'eval.log'), new=True, **ke))
     s.SetObjective(probe)
     return s
 
